@@ -176,6 +176,29 @@ def handle (op : String) (fs : List (String × String)) : String :=
       | .err _ => "na"
       | .panic _ => "panic"
     | _, _ => "bad-case"
+  else if op == "cmapx.coderange" then
+    -- property predicate: CodeRange = (smallest, largest) code point of the subtable, whatever the map order
+    match getField fs "kind" with
+    | some "0" => "0:255"
+    | some "6" =>
+      match (getField fs "bytes").bind fromHex with
+      | some b =>
+        match decode6 b with
+        | .ok w => let r := specCodeRange ((canonWrites w).map fun p => (p.1 : Int)); s!"{r.1}:{r.2}"
+        | .err => "na"
+      | none => "bad-case"
+    | some _ =>
+      match (getField fs "map").bind parsePairs with
+      | some ps => let r := specCodeRange (ps.map fun p => toRune p.1); s!"{r.1}:{r.2}"
+      | none => "bad-case"
+    | none => "bad-case"
+  else if op == "cmapx.installspec" then
+    -- property predicate: InstallCMap files the subtable under the keys its code range demands (both
+    -- sharing the subtable), and GetBest then returns that subtable
+    match (getField fs "map").bind parsePairs with
+    | some ps =>
+      "keys=" ++ ",".intercalate ((specInstallKeys (ps.map fun p => toRune p.1)).map showKey) ++ ";shared=true;best=same"
+    | none => "bad-case"
   else if op == "cmapx.install" then
     match (getField fs "map").bind parsePairs with
     | some ps =>
